@@ -368,7 +368,8 @@ Fixpoint rdc (w : nat) (rec : bool) (ls : list string) (bc bt : nat) (cont hnc :
         then (pre, Some UnsupportedFeature)
         else
           let line' := takeS w line in
-          let cont' := ends_with amp3 line' in
+          let cont' := if andb c (negb (all_space (takeS BLANK_SPACE_CONTINUE line))) then cont
+                       else amp_data line' in
           let (out, e) := rdc w rec r bc bt cont' (orb hnc (negb c)) (raw1 ++ [rstrip line']) in
           (pre ++ out, e)
   end.
@@ -399,7 +400,6 @@ Proof.
       * cbn [fst snd]. destruct newinp; [now rewrite cards_flush|reflexivity].
       * match goal with |- context [rd_loop w rec r ?a ?b ?c ?d ?e ?f] =>
           specialize (IH a b c d e f); destruct (rd_loop w rec r a b c d e f) as [o e0] end.
-        unfold amp3.
         match goal with |- context [rdc w rec r ?b ?c ?d ?e ?f] => destruct (rdc w rec r b c d e f) as [o' e'] end.
         cbn [fst snd] in *. injection IH as <- <-. rewrite cards_of_app.
         destruct newinp; [now rewrite cards_flush|reflexivity].
@@ -414,6 +414,14 @@ Proof. intros E [a b]. reflexivity. Qed.
 Lemma prepend_app : forall (E : Type) p q (x : list (nat * list string) * E),
   prepend p (prepend q x) = prepend (p ++ q) x.
 Proof. intros E p q [a b]. unfold prepend. cbn [fst snd]. now rewrite app_assoc. Qed.
+
+Ltac fold_nc w c l :=
+  change (if andb (is_comment (expandtabs TABSIZE l))
+                  (negb (all_space (takeS BLANK_SPACE_CONTINUE (expandtabs TABSIZE l))))
+          then c else amp_data (takeS w (expandtabs TABSIZE l))) with (next_cont w c l).
+
+Lemma next_cont_data : forall w c1 c2 l, is_comment (expandtabs TABSIZE l) = false -> next_cont w c1 l = next_cont w c2 l.
+Proof. intros w c1 c2 l H. unfold next_cont. now rewrite H. Qed.
 
 Ltac fin_rdc :=
   unfold cooked; cbn [map List.app];
@@ -430,13 +438,12 @@ Proof.
   - cbn [cont_lines] in H.
     apply andb_true_iff in H as [H1 H]. apply andb_true_iff in H as [H2 H]. apply andb_true_iff in H as [H3 H4].
     apply negb_true_iff in H1. apply negb_true_iff in H3.
-    cbn [List.app rdc]. cbv zeta. rewrite H1, H3.
+    cbn [List.app rdc]. cbv zeta. fold_nc w cont l. rewrite H1, H3.
     assert (Hn : andb (negb (all_space (takeS BLANK_SPACE_CONTINUE (expandtabs TABSIZE l))))
                    (andb (negb cont) (andb (negb (is_comment (expandtabs TABSIZE l))) (andb true (nonempty raw)))) = false).
     { destruct (all_space (takeS BLANK_SPACE_CONTINUE (expandtabs TABSIZE l))); [reflexivity|].
       destruct cont; [reflexivity|]. destruct (is_comment (expandtabs TABSIZE l)); [reflexivity|discriminate]. }
     rewrite Hn. cbn [orb].
-    change (ends_with amp3 (takeS w (expandtabs TABSIZE l))) with (amp_end w l).
     rewrite IH; auto.
     + cbn [cooked map]. rewrite <- app_assoc. cbn [List.app].
       change (rstrip (takeS w (expandtabs TABSIZE l))) with (cook w l).
@@ -452,7 +459,7 @@ Proof.
   intros w rec. induction c as [|l r IH]; intros R bc bt cont raw H; [discriminate|].
   cbn [lcard_ok] in H. destruct (comment_line l) eqn:Ec.
   - unfold comment_line in Ec. apply andb_true_iff in Ec as [E1 E2]. apply negb_true_iff in E1.
-    cbn [List.app rdc]. cbv zeta. rewrite E1, E2. cbn [negb andb orb].
+    cbn [List.app rdc]. cbv zeta. fold_nc w cont l. rewrite E1, E2. cbn [negb andb orb].
     rewrite !andb_false_r. cbn [negb andb orb].
     rewrite IH by exact H. cbn [cooked map]. rewrite <- app_assoc. cbn [List.app].
     change (rstrip (takeS w (expandtabs TABSIZE l))) with (cook w l).
@@ -460,9 +467,9 @@ Proof.
   - cbn [card_ok] in H. apply andb_true_iff in H as [Hs Hc]. unfold start_line in Hs.
     apply andb_true_iff in Hs as [S1 Hs]. apply andb_true_iff in Hs as [S2 Hs]. apply andb_true_iff in Hs as [S3 S4].
     apply negb_true_iff in S1. apply negb_true_iff in S2. apply negb_true_iff in S4.
-    cbn [List.app rdc]. cbv zeta. rewrite S1, S2, S4. cbn [negb andb orb].
+    cbn [List.app rdc]. cbv zeta. fold_nc w cont l. rewrite S1, S2, S4. cbn [negb andb orb].
     rewrite !andb_false_r. cbn [negb andb orb].
-    change (ends_with amp3 (takeS w (expandtabs TABSIZE l))) with (amp_end w l).
+    rewrite (next_cont_data w cont false l S2).
     rewrite cont_run; auto.
     + cbn [cooked map]. rewrite <- app_assoc. cbn [List.app].
       change (rstrip (takeS w (expandtabs TABSIZE l))) with (cook w l).
@@ -479,10 +486,9 @@ Proof.
   cbn [card_ok] in H. apply andb_true_iff in H as [Hs Hc]. unfold start_line in Hs.
   apply andb_true_iff in Hs as [S1 Hs]. apply andb_true_iff in Hs as [S2 Hs]. apply andb_true_iff in Hs as [S3 S4].
   apply negb_true_iff in S1. apply negb_true_iff in S2. apply negb_true_iff in S4.
-  cbn [List.app rdc]. cbv zeta. rewrite S1, S2, S4. rewrite S3.
+  cbn [List.app rdc]. cbv zeta. fold_nc w false l. rewrite S1, S2, S4. rewrite S3.
   assert (Hne : nonempty raw = true) by (destruct raw; [contradiction|reflexivity]).
   rewrite Hne. cbn [negb andb orb]. unfold flushc. rewrite Hne.
-  change (ends_with amp3 (takeS w (expandtabs TABSIZE l))) with (amp_end w l).
   cbn [List.app].
   rewrite cont_run; auto; [|discriminate].
   cbn [cooked map List.app].
@@ -650,27 +656,29 @@ Proof.
   cbn [cook_t snd]. now apply negb_true_iff in H1.
 Qed.
 
-Lemma more_tcards_snd : forall more bc bt, map snd (more_tcards bc bt more) = flat_map snd more.
+Lemma more_tcards_snd : forall rec more bc bt bt',
+  map snd (more_tcards rec bc bt more) = map snd (more_tcards rec bc bt' more).
 Proof.
-  induction more as [|sb r IH]; intros bc bt; [reflexivity|].
-  cbn [more_tcards flat_map]. rewrite map_app, IH, map_map. cbn [snd]. now rewrite map_id.
+  intros rec. induction more as [|sb r IH]; intros bc bt bt'; [reflexivity|].
+  cbn [more_tcards]. destruct (stops rec bc); [reflexivity|].
+  rewrite !map_app, !map_map. cbn [snd]. f_equal. apply IH.
 Qed.
 
-Lemma sfile_tcards_snd : forall bt sf, map snd (sfile_tcards bt sf) = all_cards sf.
+Lemma sfile_tcards_snd : forall rec bt sf, map snd (sfile_tcards rec bt sf) = read_cards rec sf.
 Proof.
-  intros. unfold sfile_tcards, all_cards. rewrite map_app, more_tcards_snd, map_map. cbn [snd]. now rewrite map_id.
+  intros. unfold read_cards, sfile_tcards. rewrite !map_app, !map_map. cbn [snd]. f_equal. apply more_tcards_snd.
 Qed.
 
 (* one file given by its cards: what the reader makes of its rendering *)
-Lemma scan_render : forall w sf bt path,
-  sfile_ok w sf = true ->
-  exists ys, scan_file w bt path (render sf) = (ys, reads_of w path (sfile_tcards bt sf), None) /\
-             ycards ys = map (cook_t w) (nonread w (sfile_tcards bt sf)).
+Lemma scan_render : forall w rec sf bt path,
+  sfile_ok w rec sf = true ->
+  exists ys, scan_file w rec bt path (render sf) = (ys, reads_of w path (sfile_tcards rec bt sf), None) /\
+             ycards ys = map (cook_t w) (nonread w (sfile_tcards rec bt sf)).
 Proof.
-  intros w sf bt path H. unfold sfile_ok in H.
+  intros w rec sf bt path H. unfold sfile_ok in H.
   apply andb_true_iff in H as [H1 H]. apply andb_true_iff in H as [H2 H3].
-  destruct (read_data_render w sf bt H1 H2) as [Hc He].
-  unfold scan_file. destruct (read_data_from w bt (render sf)) as [ins e]. cbn [fst snd] in Hc, He. subst e.
+  destruct (read_data_render w rec sf bt H1 H2) as [Hc He].
+  unfold scan_file. destruct (read_data_rec w rec bt (render sf)) as [ins e]. cbn [fst snd] in Hc, He. subst e.
   rewrite cut_at_err_none.
   - rewrite queue_of_cards, Hc, q_of_cook.
     eexists. split; [reflexivity|]. rewrite ycards_yields, Hc. apply nr_cook.
@@ -804,53 +812,54 @@ Proof.
   cbn [List.app block_ok]. rewrite H1, forallb_app, H2, Hc. reflexivity.
 Qed.
 
-Lemma all_nil_more : forall (f : string -> bool) more,
-  forallb (fun sb : string * list card => andb (f (fst sb)) (is_nil (snd sb))) more = true ->
-  flat_map snd more = [] /\ forall bc bt, more_tcards bc bt more = [].
+Lemma all_nil_more : forall w more,
+  forallb (fun sb : string * list card => andb (blank_line (fst sb)) (is_nil (snd sb))) more = true ->
+  forall bc bt, more_tcards true bc bt more = [] /\ more_ok w true bc more = true.
 Proof.
-  intros f. induction more as [|[s b] r IH]; intros H; [split; reflexivity|].
-  cbn [forallb fst snd] in H. apply andb_true_iff in H as [H1 H2]. apply andb_true_iff in H1 as [_ H1].
-  destruct b; [|discriminate]. destruct (IH H2) as [E1 E2]. split.
-  - cbn [flat_map snd List.app]. exact E1.
-  - intros bc bt. cbn [more_tcards snd map List.app]. apply E2.
+  intros w. induction more as [|[s b] r IH]; intros H bc bt; [split; reflexivity|].
+  cbn [forallb fst snd] in H. apply andb_true_iff in H as [H1 H2]. apply andb_true_iff in H1 as [H0 H1].
+  destruct b; [|discriminate]. destruct (IH H2 (S bc) (next_bt bc bt)) as [E1 E2]. split.
+  - cbn [more_tcards snd map List.app]. unfold stops. cbn [negb]. rewrite andb_false_r. exact E1.
+  - cbn [more_ok fst snd block_ok]. unfold stops. cbn [negb]. rewrite andb_false_r, H0, E2. reflexivity.
 Qed.
 
 Lemma sub_ok_facts : forall w sf bt,
   sub_ok w sf = true ->
-  sfile_ok w sf = true /\ sfile_tcards bt sf = map (pair bt) (s_first sf) /\ forallb (card_ok w) (s_first sf) = true.
+  sfile_ok w true sf = true /\ sfile_tcards true bt sf = map (pair bt) (s_first sf) /\
+  forallb (card_ok w) (s_first sf) = true.
 Proof.
   intros w sf bt H. unfold sub_ok in H.
   apply andb_true_iff in H as [H1 H]. apply andb_true_iff in H as [H2 H3].
-  destruct (all_nil_more _ _ H2) as [E1 E2]. repeat split; [|unfold sfile_tcards; now rewrite E2, app_nil_r|exact H1].
-  unfold sfile_ok. rewrite (cards_block_ok _ _ H1). cbn [andb].
-  apply andb_true_iff. split.
-  - eapply forallb_impl; [|exact H2]. intros [s b] E. cbn [fst snd] in *.
-    apply andb_true_iff in E as [Ea Eb]. rewrite Ea. destruct b; [reflexivity|discriminate].
-  - unfold all_cards. now rewrite E1, app_nil_r.
+  assert (E : forall b, sfile_tcards true b sf = map (pair b) (s_first sf)).
+  { intros b. unfold sfile_tcards. destruct (all_nil_more w _ H2 0 b) as [E _]. now rewrite E, app_nil_r. }
+  repeat split; [|apply E|exact H1].
+  unfold sfile_ok. rewrite (cards_block_ok _ _ H1). destruct (all_nil_more w _ H2 0 0) as [_ E2]. rewrite E2.
+  cbn [andb]. unfold read_cards. rewrite E, map_map. cbn [snd]. now rewrite map_id.
 Qed.
 
 (* the top-level file: three blocks *)
 Lemma top_shape : forall w tsf,
   top_ok w tsf = true ->
-  sfile_ok w tsf = true /\
   exists B0 B1 B2, block_ok w B0 = true /\ block_ok w B1 = true /\ block_ok w B2 = true /\
-    sfile_tcards 0 tsf = map (pair 0) B0 ++ map (pair 1) B1 ++ map (pair 2) B2.
+    sfile_tcards false 0 tsf = map (pair 0) B0 ++ map (pair 1) B1 ++ map (pair 2) B2.
 Proof.
-  intros w [first more] H. unfold top_ok in H. apply andb_true_iff in H as [Hs Hn]. split; [exact Hs|].
-  unfold sfile_ok in Hs. cbn [s_first s_more] in *.
-  apply andb_true_iff in Hs as [H1 Hs]. apply andb_true_iff in Hs as [H2 _].
+  intros w [first more] H. unfold top_ok, sfile_ok in H. cbn [s_first s_more] in H.
+  apply andb_true_iff in H as [H1 H]. apply andb_true_iff in H as [H2 _].
   exists first.
   destruct more as [|[s1 b1] more].
   - exists [], []. repeat split; auto; try (unfold sfile_tcards; cbn; now rewrite ?app_nil_r).
-  - cbn [forallb fst snd] in H2. apply andb_true_iff in H2 as [Hb1 H2]. apply andb_true_iff in Hb1 as [_ Hb1].
+  - cbn [more_ok fst snd] in H2. apply andb_true_iff in H2 as [_ H2].
+    change (stops false 0) with false in H2. cbv iota in H2. apply andb_true_iff in H2 as [Hb1 H2].
     exists b1. destruct more as [|[s2 b2] more].
     + exists []. repeat split; auto; try (unfold sfile_tcards; cbn; now rewrite ?app_nil_r).
-    + cbn [forallb fst snd] in H2. apply andb_true_iff in H2 as [Hb2 H2]. apply andb_true_iff in Hb2 as [_ Hb2].
-      exists b2. split; [exact H1|]. split; [exact Hb1|]. split; [exact Hb2|]. cbn [skipn] in Hn.
-      assert (Hn' : forallb (fun sb : string * list card => andb ((fun _ => true) (fst sb)) (is_nil (snd sb))) more = true).
-      { eapply forallb_impl; [|exact Hn]. intros x E. now rewrite E. }
-      destruct (all_nil_more _ _ Hn') as [_ E].
-      unfold sfile_tcards. cbn [s_first s_more more_tcards snd]. rewrite E, app_nil_r. reflexivity.
+    + cbn [more_ok fst snd] in H2. apply andb_true_iff in H2 as [_ H2].
+      change (stops false 1) with false in H2. cbv iota in H2. apply andb_true_iff in H2 as [Hb2 H2].
+      exists b2. split; [exact H1|]. split; [exact Hb1|]. split; [exact Hb2|].
+      unfold sfile_tcards. cbn [s_first s_more more_tcards snd].
+      change (stops false 0) with false. change (stops false 1) with false. cbv iota.
+      change (next_bt 0 0) with 1. change (next_bt 1 1) with 2.
+      destruct more as [|sb more]; cbn [more_tcards]; [|change (stops false 2) with true; cbv iota];
+        now rewrite app_nil_r.
 Qed.
 
 (* ------------------------------------------------------------------ *)
@@ -887,7 +896,7 @@ Section Flatten.
   Variables (w : nat) (t : stree) (top : string) (front : list string) (tsf : sfile) (n : nat).
   Let dir := dirname top.
   Let ft := tree_ft top (front ++ render tsf) t.
-  Let own := sfile_tcards 0 tsf.
+  Let own := sfile_tcards false 0 tsf.
   Let q0 := reads_of w top own.
   Let C := s_children w t dir.
   Let items := bfsG C n q0.
@@ -908,7 +917,7 @@ Section Flatten.
     destruct (String.eqb_spec (item_path dir it) top) as [E|_].
     - rewrite E in Hl. rewrite Hfresh in Hl. discriminate.
     - rewrite Hl. cbn [option_map].
-      destruct (scan_render w sf (fst (fst it)) (item_path dir it) Hok) as [ys [H1 H2]].
+      destruct (scan_render w true sf (fst (fst it)) (item_path dir it) Hok) as [ys [H1 H2]].
       exists ys. unfold C, s_children, cards_it, s_item_cards. rewrite Hl. now rewrite H1.
   Qed.
 
@@ -921,9 +930,8 @@ Section Flatten.
   Proof.
     intros fuel Hg Hlen. destruct Hfront as [m [ti Hf]].
     assert (Hft : ft top = Some (front ++ render tsf)) by (unfold ft, tree_ft; now rewrite String.eqb_refl).
-    destruct (top_shape w tsf Htop) as [Hok _].
-    destruct (scan_render w tsf 0 top Hok) as [ys0 [Hs0 Hy0]].
-    assert (Hscan : scan_file w 0 top (f_rest (read_front_matters (front ++ render tsf))) = (ys0, q0, None))
+    destruct (scan_render w false tsf 0 top Htop) as [ys0 [Hs0 Hy0]].
+    assert (Hscan : scan_file w false 0 top (f_rest (read_front_matters (front ++ render tsf))) = (ys0, q0, None))
       by (rewrite Hf; exact Hs0).
     assert (HF : Forall (scans w ft dir (item_yields w ft dir) C) items).
     { eapply Forall_impl; [|exact Hitems]. intros it Hit. destruct (item_scans it Hit) as [ys [H1 _]].
@@ -943,9 +951,10 @@ Section Flatten.
     unfold block_of at 2. rewrite filter_flat_map, map_flat_map. reflexivity.
   Qed.
 
-  Lemma flat_tcards : sfile_tcards 0 (flatten w t top tsf n) = by_blocks ALL.
+  Lemma flat_tcards : sfile_tcards false 0 (flatten w t top tsf n) = by_blocks ALL.
   Proof.
     unfold flatten. fold dir own q0 C items. unfold sfile_tcards. cbn [s_first s_more more_tcards snd].
+    change (stops false 0) with false. change (stops false 1) with false. cbv iota.
     rewrite !flat_block_ALL.
     change (next_bt 0 0) with 1. change (next_bt 1 1) with 2.
     rewrite !pair_snd_block, app_nil_r. reflexivity.
@@ -972,7 +981,7 @@ Section Flatten.
 
   Lemma own_block : forall b, b < 3 -> block_ok w (map snd (block_of b (nonread w own))) = true.
   Proof.
-    intros b Hb. destruct (top_shape w tsf Htop) as [_ [B0 [B1 [B2 [H0 [H1 [H2 E]]]]]]].
+    intros b Hb. destruct (top_shape w tsf Htop) as [B0 [B1 [B2 [H0 [H1 [H2 E]]]]]].
     unfold own. rewrite E. unfold nonread, block_of. rewrite filter_comm.
     fold (block_of b (map (pair 0) B0 ++ map (pair 1) B1 ++ map (pair 2) B2)).
     rewrite !block_of_app.
@@ -1002,18 +1011,19 @@ Section Flatten.
   Lemma ALL_no_rcerr : Forall (fun tc => negb (is_rcerr (card_rc w (snd tc))) = true) ALL.
   Proof.
     unfold ALL. apply Forall_app. split.
-    - apply Forall_filter. destruct (top_shape w tsf Htop) as [Hok _]. unfold sfile_ok in Hok.
+    - apply Forall_filter. assert (Hok := Htop). unfold top_ok, sfile_ok in Hok.
       apply andb_true_iff in Hok as [_ Hok]. apply andb_true_iff in Hok as [_ H3].
-      rewrite <- (sfile_tcards_snd 0) in H3. now apply forallb_map_Forall in H3.
+      unfold read_cards in H3. now apply forallb_map_Forall in H3.
     - apply Forall_flat_map_intro. eapply Forall_impl; [|exact Hitems]. intros it Hit.
       apply Forall_filter. destruct (item_cards_shape it Hit) as [bt [S [E [_ H3]]]]. rewrite E.
       apply Forall_map_intro. cbn [snd]. apply Forall_forall. rewrite forallb_forall in H3. exact H3.
   Qed.
 
-  Lemma flat_ok : sfile_ok w (flatten w t top tsf n) = true.
+  Lemma flat_ok : sfile_ok w false (flatten w t top tsf n) = true.
   Proof.
-    unfold sfile_ok. rewrite <- (sfile_tcards_snd 0), flat_tcards.
-    unfold flatten. fold dir own q0 C items. cbn [s_first s_more forallb fst snd].
+    unfold sfile_ok, read_cards. rewrite flat_tcards.
+    unfold flatten. fold dir own q0 C items. cbn [s_first s_more more_ok fst snd].
+    change (stops false 0) with false. change (stops false 1) with false. cbv iota.
     rewrite !flat_block_ok by lia.
     change (blank_line nl_line) with true. cbn [andb].
     apply Forall_forallb_map. unfold by_blocks.
@@ -1028,7 +1038,7 @@ Section Flatten.
       ra_title (read_single w (front ++ render (flatten w t top tsf n))) = ti.
   Proof.
     destruct Hfront as [m [ti Hf]]. unfold read_single. rewrite Hf. cbn [f_rest f_message f_title].
-    destruct (scan_render w _ 0 "" flat_ok) as [ys [Hs Hy]]. rewrite Hs. cbn [ra_error ra_yields ra_message ra_title].
+    destruct (scan_render w false _ 0 "" flat_ok) as [ys [Hs Hy]]. rewrite Hs. cbn [ra_error ra_yields ra_message ra_title].
     split; [reflexivity|]. split.
     - rewrite Hy, flat_tcards. f_equal. unfold nonread. apply filter_all.
       unfold by_blocks. repeat (apply Forall_app; split); unfold block_of; apply Forall_filter; apply ALL_nonread.
@@ -1081,29 +1091,30 @@ Qed.
 
 (* ------------------------------------------------------------------ *)
 (* block type of what a file yields *)
-Lemma rd_loop_blank_tail : forall w ls ln bc bt cont hnc,
-  forallb blank_line ls = true -> rd_loop w ls ln bc bt cont hnc [] = ([], None).
+Lemma rd_loop_blank_tail : forall w rec ls ln bc bt cont hnc,
+  forallb blank_line ls = true -> rd_loop w rec ls ln bc bt cont hnc [] = ([], None).
 Proof.
-  intros w. induction ls as [|l r IH]; intros ln bc bt cont hnc H; [reflexivity|].
+  intros w rec. induction ls as [|l r IH]; intros ln bc bt cont hnc H; [reflexivity|].
   cbn [forallb] in H. apply andb_true_iff in H as [H1 H2]. unfold blank_line in H1.
-  cbn [rd_loop]. cbv zeta. rewrite H1. now rewrite IH.
+  cbn [rd_loop]. cbv zeta. rewrite H1. destruct (andb (Nat.leb 3 (S bc)) (negb rec)); [reflexivity|]. now rewrite IH.
 Qed.
 
 Lemma flush_bt : forall bt raw ln, Forall (fun i => i_bt i = bt) (flush bt raw ln).
 Proof. intros. unfold flush. destruct (nonempty raw); repeat constructor. Qed.
 
-Lemma rd_loop_one_block : forall w ls ln bc bt cont hnc raw,
-  one_block ls = true -> Forall (fun i => i_bt i = bt) (fst (rd_loop w ls ln bc bt cont hnc raw)).
+Lemma rd_loop_one_block : forall w rec ls ln bc bt cont hnc raw,
+  one_block ls = true -> Forall (fun i => i_bt i = bt) (fst (rd_loop w rec ls ln bc bt cont hnc raw)).
 Proof.
-  intros w. induction ls as [|l r IH]; intros ln bc bt cont hnc raw H.
+  intros w rec. induction ls as [|l r IH]; intros ln bc bt cont hnc raw H.
   - cbn [rd_loop fst]. apply flush_bt.
   - cbn [one_block] in H. unfold blank_line in H at 1. cbn [rd_loop]. cbv zeta.
     destruct (all_space (expandtabs TABSIZE l)).
-    + rewrite rd_loop_blank_tail by exact H. cbn [fst]. rewrite app_nil_r. apply flush_bt.
+    + destruct (andb (Nat.leb 3 (S bc)) (negb rec)); [cbn [fst]; apply flush_bt|].
+      rewrite rd_loop_blank_tail by exact H. cbn [fst]. rewrite app_nil_r. apply flush_bt.
     + match goal with |- context [if ?c then (?p, Some UnsupportedFeature) else _] => destruct c end.
       * cbn [fst]. match goal with |- context [if ?c then _ else _] => destruct c end; [apply flush_bt|constructor].
-      * match goal with |- context [rd_loop w r ?a ?b ?c ?d ?e ?f] =>
-          specialize (IH a b c d e f H); destruct (rd_loop w r a b c d e f) as [o e0] end.
+      * match goal with |- context [rd_loop w rec r ?a ?b ?c ?d ?e ?f] =>
+          specialize (IH a b c d e f H); destruct (rd_loop w rec r a b c d e f) as [o e0] end.
         cbn [fst] in *. apply Forall_app. split; [|exact IH].
         match goal with |- context [if ?c then _ else _] => destruct c end; [apply flush_bt|constructor].
 Qed.
@@ -1124,12 +1135,12 @@ Qed.
 Definition yield_bt (bt : nat) (y : yielded) : Prop :=
   match y with YInput _ i => i_bt i = bt | YNone => True end.
 
-Lemma scan_file_one_block : forall w bt path ls,
-  one_block ls = true -> Forall (yield_bt bt) (fst (fst (scan_file w bt path ls))).
+Lemma scan_file_one_block : forall w rec bt path ls,
+  one_block ls = true -> Forall (yield_bt bt) (fst (fst (scan_file w rec bt path ls))).
 Proof.
-  intros w bt path ls H. unfold scan_file, read_data_from.
-  assert (Hr := rd_loop_one_block w ls 0 0 bt false false [] H).
-  destruct (rd_loop w ls 0 0 bt false false []) as [ins e]. cbn [fst] in Hr.
+  intros w rec bt path ls H. unfold scan_file, read_data_rec.
+  assert (Hr := rd_loop_one_block w rec ls 0 0 bt false false [] H).
+  destruct (rd_loop w rec ls 0 0 bt false false []) as [ins e]. cbn [fst] in Hr.
   assert (Hc := cut_at_err_Forall _ ins Hr). destruct (cut_at_err ins) as [pre perr]. cbn [fst] in *.
   induction Hc as [|i l Hi Hl IH]; [constructor|]. cbn [map]. constructor; [|exact IH].
   unfold yield_of. destruct (classify i); cbn; auto.
@@ -1140,8 +1151,8 @@ Lemma item_yields_block : forall w ft dir it,
 Proof.
   intros w ft dir it H. unfold item_one_block in H. unfold item_yields, item_scan.
   destruct (ft (item_path dir it)) as [ls|]; cbn [option_map]; [|constructor].
-  assert (Hs := scan_file_one_block w (fst (fst it)) (item_path dir it) ls H).
-  destruct (scan_file w (fst (fst it)) (item_path dir it) ls) as [[ys qs] e]. exact Hs.
+  assert (Hs := scan_file_one_block w true (fst (fst it)) (item_path dir it) ls H).
+  destruct (scan_file w true (fst (fst it)) (item_path dir it) ls) as [[ys qs] e]. exact Hs.
 Qed.
 
 Lemma block_of_ycards_all : forall b ys, Forall (yield_bt b) ys -> block_of b (ycards ys) = ycards ys.
@@ -1201,7 +1212,7 @@ Proof.
   intros w ft dir it ys qs H. unfold item_scan in H. unfold item_inputs.
   destruct (ft (item_path dir it)) as [ls|]; cbn [option_map] in H; [|discriminate].
   injection H as H. unfold scan_file in H.
-  destruct (read_data_from w (fst (fst it)) ls) as [ins e]. cbn [fst].
+  destruct (read_data_rec w true (fst (fst it)) ls) as [ins e]. cbn [fst].
   assert (Hall := cut_at_err_all ins). destruct (cut_at_err ins) as [pre perr]. cbn [fst snd] in Hall.
   injection H as Hy _ He. destruct perr; [discriminate|]. rewrite Hall in Hy by reflexivity. subst ys.
   apply inputs_yields.
@@ -1215,14 +1226,14 @@ Lemma readq_kept : forall w ft top fuel ls ys0 q0 n,
   List.length (bfs n w ft (dirname top) q0) <= fuel ->
   inputs_of (ra_yields (read_all_ft w ft top fuel))
     = map (pair top) (filter (fun i => negb (is_name (classify i)))
-                             (fst (read_data_from w 0 (f_rest (read_front_matters ls))))) ++
+                             (fst (read_data_rec w false 0 (f_rest (read_front_matters ls))))) ++
       flat_map (fun it => map (pair (item_path (dirname top) it))
                               (filter (fun i => negb (is_name (classify i))) (item_inputs w ft (dirname top) it)))
                (bfs n w ft (dirname top) q0).
 Proof.
   intros * H H0 Hok Hg Hlen.
   rewrite (readq_once _ _ _ _ _ _ _ _ H H0 Hok Hg Hlen). f_equal.
-  - unfold scan_file in H0. destruct (read_data_from w 0 (f_rest (read_front_matters ls))) as [ins e]. cbn [fst].
+  - unfold scan_file in H0. destruct (read_data_rec w false 0 (f_rest (read_front_matters ls))) as [ins e]. cbn [fst].
     assert (Hall := cut_at_err_all ins). destruct (cut_at_err ins) as [pre perr]. cbn [fst snd] in Hall.
     injection H0 as Hy _ He. destruct perr; [discriminate|]. rewrite Hall in Hy by reflexivity. subst ys0.
     apply inputs_yields.
@@ -1238,11 +1249,11 @@ Proof.
   destruct y; cbn [List.app]; [constructor|]; auto.
 Qed.
 
-Lemma scan_file_no_read_card : forall w bt path ls,
+Lemma scan_file_no_read_card : forall w rec bt path ls,
   Forall (fun y => match y with YInput _ i => is_name (classify i) = false | YNone => True end)
-         (fst (fst (scan_file w bt path ls))).
+         (fst (fst (scan_file w rec bt path ls))).
 Proof.
-  intros. unfold scan_file. destruct (read_data_from w bt ls) as [ins e]. destruct (cut_at_err ins) as [pre perr].
+  intros. unfold scan_file. destruct (read_data_rec w rec bt ls) as [ins e]. destruct (cut_at_err ins) as [pre perr].
   cbn [fst]. induction pre as [|i r IH]; [constructor|]. cbn [map]. constructor; [|exact IH].
   unfold yield_of. destruct (classify i) eqn:E; try exact I; rewrite E; reflexivity.
 Qed.
@@ -1255,8 +1266,8 @@ Proof.
   - destruct q as [|[[bt name] par] q]; constructor.
   - destruct q as [|[[bt name] par] q]; [constructor|]. cbn [drain].
     destruct (ft (path_join dir name)) as [ls|]; [|constructor].
-    assert (Hs := scan_file_no_read_card w bt (path_join dir name) ls).
-    destruct (scan_file w bt (path_join dir name) ls) as [[ys qs] [e|]]; cbn [fst] in *; [exact Hs|].
+    assert (Hs := scan_file_no_read_card w true bt (path_join dir name) ls).
+    destruct (scan_file w true bt (path_join dir name) ls) as [[ys qs] [e|]]; cbn [fst] in *; [exact Hs|].
     specialize (IH (q ++ qs)). destruct (drain f ft dir w (q ++ qs)) as [ys' e']. cbn [fst] in *.
     apply Forall_app. now split.
 Qed.
@@ -1266,8 +1277,8 @@ Lemma readq_no_read_card : forall w ft top fuel,
   Forall (fun c => is_name (classify_lines (snd c)) = false) (ycards (ra_yields (read_all_ft w ft top fuel))).
 Proof.
   intros. apply ycards_no_read_card. unfold read_all_ft. destruct (ft top) as [ls|]; [|constructor]. cbv zeta.
-  assert (Hs := scan_file_no_read_card w 0 top (f_rest (read_front_matters ls))).
-  destruct (scan_file w 0 top (f_rest (read_front_matters ls))) as [[ys qs] [e|]]; cbn [fst] in *; [exact Hs|].
+  assert (Hs := scan_file_no_read_card w false 0 top (f_rest (read_front_matters ls))).
+  destruct (scan_file w false 0 top (f_rest (read_front_matters ls))) as [[ys qs] [e|]]; cbn [fst] in *; [exact Hs|].
   assert (Hd := drain_no_read_card w ft (dirname top) fuel qs).
   destruct (drain fuel ft (dirname top) w qs) as [ys' e']. cbn [fst ra_yields] in *. apply Forall_app. now split.
 Qed.
@@ -1293,7 +1304,7 @@ Definition ex_q0 : list qitem := [(0, "c2.i", ex_top); (2, "d1.i", ex_top); (2, 
 Lemma ex_text_hyps :
   exists ls ys0,
     ex_ft ex_top = Some ls /\
-    scan_file 128 0 ex_top (f_rest (read_front_matters ls)) = (ys0, ex_q0, None) /\
+    scan_file 128 false 0 ex_top (f_rest (read_front_matters ls)) = (ys0, ex_q0, None) /\
     Forall (item_ok 128 ex_ft (dirname ex_top)) (bfs 3 128 ex_ft (dirname ex_top) ex_q0) /\
     Forall (item_one_block ex_ft (dirname ex_top)) (bfs 3 128 ex_ft (dirname ex_top) ex_q0) /\
     gen_at 3 128 ex_ft (dirname ex_top) ex_q0 = [] /\
@@ -1319,7 +1330,7 @@ Proof. split; vm_compute; reflexivity. Qed.
 Lemma ex_missing :
   exists ls ys0 q0 pre it post,
     fs_text (removelast ex_fs) "/" ex_top = Some ls /\
-    scan_file 128 0 ex_top (f_rest (read_front_matters ls)) = (ys0, q0, None) /\
+    scan_file 128 false 0 ex_top (f_rest (read_front_matters ls)) = (ys0, q0, None) /\
     bfs 3 128 (fs_text (removelast ex_fs) "/") (dirname ex_top) q0 = pre ++ it :: post /\
     Forall (item_ok 128 (fs_text (removelast ex_fs) "/") (dirname ex_top)) pre /\
     item_missing (fs_text (removelast ex_fs) "/") (dirname ex_top) it /\ List.length pre < 4.
@@ -1345,14 +1356,14 @@ Lemma ex_tree_hyps :
   front_ok [L "MESSAGE: x"; L "more"; L ""; L "title"] /\ front_ok [L "title"] /\
   top_ok 128 ex_tsf = true /\ slookup ex_tree ex_top = None /\
   Forall (s_item_ok 128 ex_tree (dirname ex_top))
-         (bfsG (s_children 128 ex_tree (dirname ex_top)) 3 (reads_of 128 ex_top (sfile_tcards 0 ex_tsf))) /\
-  gen_atG (s_children 128 ex_tree (dirname ex_top)) 3 (reads_of 128 ex_top (sfile_tcards 0 ex_tsf)) = [] /\
-  List.length (bfsG (s_children 128 ex_tree (dirname ex_top)) 3 (reads_of 128 ex_top (sfile_tcards 0 ex_tsf))) = 4.
+         (bfsG (s_children 128 ex_tree (dirname ex_top)) 3 (reads_of 128 ex_top (sfile_tcards false 0 ex_tsf))) /\
+  gen_atG (s_children 128 ex_tree (dirname ex_top)) 3 (reads_of 128 ex_top (sfile_tcards false 0 ex_tsf)) = [] /\
+  List.length (bfsG (s_children 128 ex_tree (dirname ex_top)) 3 (reads_of 128 ex_top (sfile_tcards false 0 ex_tsf))) = 4.
 Proof.
   split. { apply (front_ok_message _ [L "more"]); reflexivity. }
   split. { apply front_ok_title. reflexivity. }
   split; [vm_compute; reflexivity|]. split; [reflexivity|].
-  assert (E : bfsG (s_children 128 ex_tree (dirname ex_top)) 3 (reads_of 128 ex_top (sfile_tcards 0 ex_tsf))
+  assert (E : bfsG (s_children 128 ex_tree (dirname ex_top)) 3 (reads_of 128 ex_top (sfile_tcards false 0 ex_tsf))
               = ex_q0 ++ [(2, "sub/d3.i", "/p/d1.i")]) by (vm_compute; reflexivity).
   rewrite E. split.
   { repeat constructor; eexists; (split; [vm_compute; reflexivity|vm_compute; reflexivity]). }
@@ -1375,7 +1386,7 @@ Definition blank_fs : fsys :=
 Lemma block_refuted :
   exists w fs cwd top fuel it p i,
     ra_error (read_all w fs cwd top fuel) = None /\
-    snd (fst (scan_file w 0 top (f_rest (read_front_matters (file_lines (snd (List.hd ("", "") fs))))))) = [it] /\
+    snd (fst (scan_file w false 0 top (f_rest (read_front_matters (file_lines (snd (List.hd ("", "") fs))))))) = [it] /\
     In (YInput p i) (item_yields w (fs_text fs cwd) (dirname top) it) /\
     fst (fst it) = 2 /\ i_bt i = 1 /\ i_lines i = ["mode n"].
 Proof.
@@ -1392,11 +1403,11 @@ Definition lead_tree : stree := [("/p/d.i", mkS [[L "c lead"; L "nps 10"]] [])].
 Lemma flatten_lead_comment_refuted :
   exists w t top front tsf n fuel,
     front_ok front /\ top_ok w tsf = true /\ slookup t top = None /\
-    Forall (fun it => exists sf, slookup t (item_path (dirname top) it) = Some sf /\ sfile_ok w sf = true /\
+    Forall (fun it => exists sf, slookup t (item_path (dirname top) it) = Some sf /\ sfile_ok w true sf = true /\
                                  s_more sf = [])
-           (bfsG (s_children w t (dirname top)) n (reads_of w top (sfile_tcards 0 tsf))) /\
-    gen_atG (s_children w t (dirname top)) n (reads_of w top (sfile_tcards 0 tsf)) = [] /\
-    List.length (bfsG (s_children w t (dirname top)) n (reads_of w top (sfile_tcards 0 tsf))) <= fuel /\
+           (bfsG (s_children w t (dirname top)) n (reads_of w top (sfile_tcards false 0 tsf))) /\
+    gen_atG (s_children w t (dirname top)) n (reads_of w top (sfile_tcards false 0 tsf)) = [] /\
+    List.length (bfsG (s_children w t (dirname top)) n (reads_of w top (sfile_tcards false 0 tsf))) <= fuel /\
     ycards (ra_yields (read_all_ft w (tree_ft top (front ++ render tsf) t) top fuel))
       = [(0, ["1 0 -1"]); (1, ["1 so 5"]); (2, ["mode n"]); (2, ["c lead"; "nps 10"])] /\
     ycards (ra_yields (read_single w (front ++ render (flatten w t top tsf n))))
